@@ -125,6 +125,16 @@ def ramRead (parts : List Bytes) (lenp : Nat) : Nat → RCur → Bytes → Bytes
 
 def readFuel (parts : List Bytes) (lenp : Nat) : Nat := parts.length + lenp + 2
 
+/-- Vocabulary for statements about the reader (not used by the executable model):
+    the cursor is usable — `curPos` does not exceed the current part (Go would panic on
+    `buf[r.curPos:]` otherwise); past the last part the position is 0. -/
+def RCur.ok (parts : List Bytes) (c : RCur) : Prop :=
+  c.curPos ≤ (parts.getD c.curPart []).length
+
+/-- The bytes that are still ahead of the cursor. -/
+def remaining (parts : List Bytes) (c : RCur) : Bytes :=
+  ((parts.drop c.curPart).flatten).drop c.curPos
+
 /-- Read with each buffer size of `bufs`; stop early at EOF. Returns all bytes, whether EOF was seen, cursor. -/
 def ramReadSeq (parts : List Bytes) : List Nat → RCur → Bytes → Bytes × Bool × RCur
   | [], c, out => (out, false, c)
